@@ -3,7 +3,10 @@
 (*                                                                                                        *)
 (* Memory is a row of cells (one cell = C bytes, `unit` cells = one engine unit: 1 KiB for OTFAD / BEE,   *)
 (* one 4 KiB page for IEE).  A case `c` fixes                                                             *)
-(*   regs  : the contexts / FAC regions / key-blob regions  [lo, hi (cells, inclusive), vld, ade, chk, inp] *)
+(*   regs  : the contexts / FAC regions / key-blob regions  [lo, hi (cells, inclusive), vld, ade, chk, inp, wh, wl] *)
+(*           wh, wl = the configured initial value W = wh * 65536 + wl of an ADDITIVE counter word (IEE AES-CTR: *)
+(*           counter word = W + address >> 4); 0, 0 where the engine adds nothing (OTFAD: the address itself,    *)
+(*           BEE: the word is zero by format, XTS: page number)                                                 *)
 (*   nrec  : number of key-blob records the boot ROM loads (records beyond Len(regs) must stay invalid)   *)
 (*   base, sub, len : the image occupies the bytes  base*C + sub .. + len - 1  of the window              *)
 (*   oh, ol : window origin = oh * 65536 + ol  (addresses are pairs of 16-bit limbs: TLC integers are 32 bit) *)
@@ -50,7 +53,20 @@ Inp(cs, k) == IF ~Dec(cs, k) THEN <<0, 0>>
                      [] kind = "shr4" -> <<Shr(cs, off, 16), 0>>
                      [] kind = "page" -> <<Shr(cs, off, 4096), 0>>
                      [] OTHER -> <<0, 0>>
-Asserted(cs, k) == Owner(cs, k) = 0 \/ cs.regs[Owner(cs, k)].chk    \* FALSE only for modes the property does not describe
+\* ---------------------------------------------------------------- additive counters and the end of their documented range
+\* The counter word of IEE AES-CTR is W + (address >> 4).  What the engine does when that sum reaches 2^32 (wrap inside the word,
+\* carry into the nonce) is not documented offline: "engine output = plaintext" is SETTLED only for blocks whose sum stays below
+\* 2^32.  WrapBlk = number of 16-byte blocks from the window origin to the first block whose sum is 2^32 (may be <= 0), computed
+\* on limbs: 2^32 - W = (65535 - wh) * 65536 + (65536 - wl).  address >> 4 < 2^28, so W < 0xC0000000 can never get there.
+\* (The LOCALITY clause below says nothing about any engine: it is demanded for every cut, settled or not.)
+NoWrap == 1073741824
+WrapBlk(cs, j) == LET r == cs.regs[j] IN
+                  IF r.inp # "shr4" \/ r.wh < 49152 THEN NoWrap
+                  ELSE ((65535 - r.wh) * 65536 + (65536 - r.wl)) - (cs.oh * 4096 + (cs.ol \div 16))
+LastBlk(cs, k) == (CellLo(cs, k) + CellN(cs, k) - 1) \div 16                  \* last 16-byte block of cell k that holds image bytes
+Settled(cs, k) == Owner(cs, k) = 0 \/ LastBlk(cs, k) < WrapBlk(cs, Owner(cs, k))
+\* FALSE only for modes the property does not describe and for cells that reach into the undocumented range of an additive counter
+Asserted(cs, k) == Owner(cs, k) = 0 \/ (cs.regs[Owner(cs, k)].chk /\ Settled(cs, k))
 ExpCell(cs, k) == [a |-> Addr(cs, CellLo(cs, k)), n |-> CellN(cs, k), ctx |-> Owner(cs, k), dec |-> Dec(cs, k), inp |-> Inp(cs, k)]
 
 \* ---------------------------------------------------------------- locality: admissible cuts (cell indices)
@@ -89,7 +105,8 @@ FetchCommon(o) ==
   /\ LET x == ExpCell(c, pc) IN o.a = x.a /\ o.n = x.n /\ o.ctx = x.ctx /\ o.dec = x.dec /\ o.inp = x.inp
   /\ (Asserted(c, pc) => o.ok)
   /\ pc' = pc + 1 /\ UNCHANGED <<phase, loaded>> /\ Keep
-FetchDecrypt(o) == Dec(c, pc) /\ FetchCommon(o)                               \* inside an enabled range: engine output = plaintext
+FetchDecrypt(o) == Dec(c, pc) /\ Asserted(c, pc) /\ FetchCommon(o)            \* inside an enabled range: engine output = plaintext
+FetchUnsettled(o) == Dec(c, pc) /\ ~Asserted(c, pc) /\ FetchCommon(o)         \* engine behaviour not documented: selection, address, cipher input only
 FetchBypass(o)  == Owner(c, pc) # 0 /\ ~Dec(c, pc) /\ FetchCommon(o)          \* valid context without decryption: bytes as they are
 FetchMiss(o)    == Owner(c, pc) = 0 /\ FetchCommon(o)                         \* outside every range: untouched
 EndFetch(o) ==
@@ -97,7 +114,10 @@ EndFetch(o) ==
   /\ o.outLen >= c.len
   /\ phase' = "local" /\ pc' = 0 /\ UNCHANGED loaded /\ Keep
 
-\* whole image = pieces encrypted at their own addresses, for every admissible cut, in increasing order
+\* whole image = pieces encrypted at their own addresses, for every admissible cut, in increasing order.
+\* This clause is independent of any engine model ("the result depends only on key material, absolute address and plaintext"):
+\* it holds for every cut, also where a counter leaves its documented range (~Settled) - whatever the engine does there,
+\* it does it to a 16-byte block at an address, not to "the rest of the call".
 Local(o) ==
   /\ phase = "local" /\ NextCut(c, pc) # 0 /\ o.s = NextCut(c, pc)
   /\ o.ok
